@@ -31,11 +31,15 @@ def run(c):
 
     def models():
         base = {"N": 3, "M": 3, "SamePart": "TRUE"}
-        c.tlc_model("DistMatrixModel", constants=dict(base, MinNP=1, MaxNP=2, MaskStride=1 if th else 4, MaskOff=0 if th else off % 4), workers=8)
-        c.tlc_model("DistMatrixModel", constants=dict(base, MinNP=3, MaxNP=3, MaskStride=1 if th else 64, MaskOff=0 if th else off),
-                    workers=8, timeout=2400)
-        c.tlc_model("DistMatrixModel", constants={"N": 2, "M": 3, "SamePart": "FALSE", "MinNP": 1, "MaxNP": 2,
-                                                  "MaskStride": 1 if th else 2, "MaskOff": 0 if th else off % 2}, workers=8)
+        # three state spaces side by side (distinct cfg files so that the derived configs do not collide)
+        c.parallel([
+            lambda: c.tlc_model("DistMatrixModel", constants=dict(base, MinNP=1, MaxNP=2, MaskStride=1 if th else 4, MaskOff=0 if th else off % 4),
+                                workers=6),
+            lambda: c.tlc_model("DistMatrixModel", cfg="DistMatrixModel3.cfg",
+                                constants=dict(base, MinNP=3, MaxNP=3, MaskStride=1 if th else 64, MaskOff=0 if th else off), workers=6, timeout=2400),
+            lambda: c.tlc_model("DistMatrixModel", cfg="DistMatrixModelRect.cfg",
+                                constants={"N": 2, "M": 3, "SamePart": "FALSE", "MinNP": 1, "MaxNP": 2,
+                                           "MaskStride": 1 if th else 2, "MaskOff": 0 if th else off % 2}, workers=4)])
 
     def validate(t, label, chunk):
         # a crashed recorder (already reported by c.record) may leave a truncated last line
